@@ -40,6 +40,10 @@ pub struct C32Scn {
     pub entropy: u64,
     pub ops: Vec<POp>,
     pub exhaustive: bool,
+    /// where the handler comes from: 0 = the simulator's own, 1 = `DeviceHandler::default()` put in
+    /// its place, 2 = `DeviceHandler::new()` put in its place (all three are the documented empty handler)
+    #[serde(default)]
+    pub handler_from: u8,
 }
 pub struct C32;
 
@@ -85,6 +89,11 @@ impl C32 {
     fn run(&self, s: &C32Scn, out: &mut Outcome) -> Option<Violation> {
         let log = Log::new();
         let mut sim = Simulator::new(lc3_ensemble::sim::SimFlags { machine_init: lc3_ensemble::sim::mem::MachineInitStrategy::Known { value: 0 }, ..Default::default() });
+        match s.handler_from {
+            1 => sim.device_handler = Default::default(),
+            2 => sim.device_handler = lc3_ensemble::sim::device::DeviceHandler::new(),
+            _ => {}
+        }
         let mut m = RefPorts { owner: BTreeMap::new(), live: BTreeMap::new(), null_ids: BTreeSet::new(), next_id: 3, iregs: BTreeMap::new(), mirror: BTreeMap::new(), pc: 0x3000, psr: 0x8002, mcr: false, ssp: 0x3000 };
         for p in [0xFE00, 0xFE02] {
             m.owner.insert(p, 1);
@@ -367,7 +376,7 @@ impl Check for C32 {
                 ops.push(small_alphabet(rem % SMALL_N));
                 rem /= SMALL_N;
             }
-            return C32Scn { entropy: 1, ops, exhaustive: true };
+            return C32Scn { entropy: 1, ops, exhaustive: true, handler_from: (i % 3) as u8 };
         }
         let n = (4 + r.below(36)) * r.deep() as u64;
         let addr = |r: &mut Rng| match r.below(10) {
@@ -397,7 +406,7 @@ impl Check for C32 {
                 _ => POp::Write { addr: addr(r), data: r.u16(), privileged: r.chance(5, 6) },
             });
         }
-        C32Scn { entropy: r.next_u64(), ops, exhaustive: false }
+        C32Scn { entropy: r.next_u64(), ops, exhaustive: false, handler_from: r.below(3) as u8 }
     }
     fn execute(&self, s: &C32Scn) -> Outcome {
         let mut out = Outcome::default();
